@@ -125,3 +125,19 @@ Proof.
   split; [vm_compute; discriminate|]. eexists. split; [vm_compute; reflexivity|].
   split; reflexivity.
 Qed.
+
+(** "... nor the moment it will be collected": after add() on a present vertex
+    every continuation runs exactly as it would have run without that call *)
+From Sodg Require Import Spec.
+
+Theorem C04_present_same_future : forall n g v os,
+  v < cap_of g -> tag g v <> 0 ->
+  run n g (OAdd v :: os) = obind (run n g os) (fun r => Ok (fst r, RUnit :: snd r)).
+Proof.
+  intros n g v os Hv Ht. cbn [run step]. rewrite (add_present g v Hv Ht). cbn [obind fst snd].
+  destruct (run n g os) as [[g' rs]| | |]; reflexivity.
+Qed.
+Check C04_present_same_future : forall n g v os,
+  v < cap_of g -> tag g v <> 0 ->
+  run n g (OAdd v :: os) = obind (run n g os) (fun r => Ok (fst r, RUnit :: snd r)).
+Print Assumptions C04_present_same_future.
